@@ -86,3 +86,80 @@ func reusingDriver() {
 	}
 	ctx.NontrivialN(1)
 }
+
+// queuedIn is an input port that hands over what had piled up before from
+// inside Listen (a driver that flushes its queue to a new listener).
+type queuedIn struct {
+	reuseIn
+	queued [][]byte
+}
+
+func (q *queuedIn) Listen(onMsg func([]byte, int32), conf drivers.ListenConfig) (func(), error) {
+	q.onMsg = onMsg
+	for i, m := range q.queued {
+		q.deliver(m, int32(i))
+	}
+	return func() { q.onMsg = nil }, nil
+}
+
+// queuedDriver: messages that arrive while Listen is still running are stored
+// behind the initial tempo event like every other, in order.
+func queuedDriver() {
+	later := [][]byte{{0xB2, 0x07, 0x64}, {0x80, 0x3C, 0x00}}
+	for nq := 0; nq <= 3; nq++ {
+		for _, viaFile := range []bool{false, true} {
+			ctx.Eval()
+			queued := [][]byte{{0x90, 0x3C, 0x40}, {0xC1, 0x05}, {0xE0, 0x00, 0x40}}[:nq]
+			in := &queuedIn{queued: queued}
+			in.Open()
+			var tr smf.Track
+			file := smf.New()
+			file.TimeFormat = smf.MetricTicks(960)
+			var stop func()
+			var err error
+			c := engine.Catch(func() {
+				if viaFile {
+					stop, err = file.RecordFrom(in, 120)
+				} else {
+					stop, err = tr.RecordFrom(in, smf.MetricTicks(960), 120)
+				}
+			})
+			detail := map[string]interface{}{"kind": "queued-driver", "queued": nq, "via_file": viaFile}
+			if c.Panicked || err != nil {
+				detail["what"] = fmt.Sprintf("RecordFrom failed: %v %s", err, c.Value)
+				ctx.Violation("record:queued-driver:start", detail)
+				return
+			}
+			for i, m := range later {
+				in.deliver(m, int32(10*(i+1)))
+			}
+			stop()
+			if viaFile {
+				if len(file.Tracks) != 1 {
+					detail["what"] = fmt.Sprintf("%d tracks in the file after one recording", len(file.Tracks))
+					ctx.Violation("record:queued-driver:tracks", detail)
+					return
+				}
+				tr = file.Tracks[0]
+			} else {
+				tr.Close(0)
+			}
+			evs := sp.FromTrack(tr)
+			want := append(append([][]byte{}, queued...), later...)
+			ok := len(evs) == len(want)+2 && len(evs[0].Msg) > 1 && evs[0].Msg[0] == 0xFF && evs[0].Msg[1] == 0x51
+			for i := 0; ok && i < len(want); i++ {
+				ok = bytes.Equal(evs[i+1].Msg, want[i])
+			}
+			if !ok {
+				var got [][]byte
+				for _, e := range evs {
+					got = append(got, e.Msg)
+				}
+				detail["what"] = fmt.Sprintf("%d messages handed over from inside Listen, two afterwards: the track holds % X, expected the tempo event, % X and the end of track", nq, got, want)
+				ctx.Violation("record:queued-driver:content", detail)
+				return
+			}
+			ctx.NontrivialN(1)
+		}
+	}
+}
